@@ -39,6 +39,8 @@ type FuncContract struct {
 	atAssumes []*atAssume
 	atAsserts []*atAssume
 	panicsIff *clause
+	holds     *clause // rank of the lock held on entry
+	locksRank *clause // rank of the lock this function takes
 	preserves []string
 	hints    []*clause // replay preferences: not facts, only used to pick a model
 	panics   string // "", "never", "may"
@@ -133,8 +135,8 @@ func (c *Contracts) fieldContract(key string) *FuncContract {
 	return c.fields[key]
 }
 
-var headRE = regexp.MustCompile(`^func\s+(\S+?)\s*\(([^)]*)\)\s*(?:\(([^)]*)\))?\s*$`)
-var fieldRE = regexp.MustCompile(`^field\s+(\S+)\s*\(([^)]*)\)\s*(?:\(([^)]*)\))?\s*$`)
+var headRE = regexp.MustCompile(`^func\s+(\(\*?[\w.]+\)[.\w$]+|[^\s(]+)\s*\(([^)]*)\)\s*(?:\(([^)]*)\))?\s*$`)
+var fieldRE = regexp.MustCompile(`^field\s+([^\s(]+)\s*\(([^)]*)\)\s*(?:\(([^)]*)\))?\s*$`)
 var specRE = regexp.MustCompile(`^spec\s+(rec\s+)?(\w+)\s*\(([^)]*)\)\s*(\S+)\s*=\s*(.*)$`)
 var abstractRE = regexp.MustCompile(`^spec\s+abstract\s+(\w+)\s*\(([^)]*)\)\s*(\S+)\s*(?:~\s*(.*))?$`)
 var tagRE = regexp.MustCompile(`\s*@((?:C\d+|assume)(?:,(?:C\d+|assume))*)\s*$`)
@@ -183,7 +185,7 @@ func (cs *Contracts) parseFile(p *packages.Package, file string) {
 		line int
 	}
 	var raws []raw
-	kw := regexp.MustCompile(`^(invariant|func|field|spec|lemma|requires|ensures|hint|decreases|at|preserves|panics|assigns|loop|tco|pure|trusted|inline|hyp|goal|props)\b`)
+	kw := regexp.MustCompile(`^(invariant|func|field|spec|lemma|requires|ensures|hint|decreases|at|preserves|holds|locks|panics|assigns|loop|tco|pure|trusted|inline|hyp|goal|props)\b`)
 	for i, ln := range strings.Split(string(data), "\n") {
 		t := strings.TrimSpace(ln)
 		if !strings.HasPrefix(t, "//@") {
@@ -363,6 +365,10 @@ func (cs *Contracts) parseFile(p *packages.Package, file string) {
 						cur.decreases = append(cur.decreases, c)
 					}
 				}
+			case "holds":
+				cur.holds = mkClause(rest)
+			case "locks":
+				cur.locksRank = mkClause(rest)
 			case "preserves":
 				cur.preserves = append(cur.preserves, splitNames(rest)...)
 			case "at":
